@@ -569,6 +569,9 @@ func (x *Exec) freshOfType(st *State, prefix string, t types.Type) string {
 	srt := x.vc.sortOf(t)
 	n := x.vc.freshConst(prefix, srt)
 	x.wf(st, t, n, "havoc")
+	if st != nil {
+		x.notFuture(st, t, n, 0)
+	}
 	return n
 }
 
@@ -579,6 +582,27 @@ func (x *Exec) paramOfType(st *State, prefix string, t types.Type) string {
 	n := x.vc.freshConst(prefix, srt)
 	x.wf(st, t, n, "param")
 	return n
+}
+
+// notFuture: a value that exists now cannot refer to an object this execution allocates later
+// (fresh objects get the ids -(objCtr+1), -(objCtr+2), ... in allocation order).
+func (x *Exec) notFuture(st *State, t types.Type, term string, depth int) {
+	if depth > 2 {
+		return
+	}
+	switch u := t.Underlying().(type) {
+	case *types.Slice:
+		x.assume(st, fmt.Sprintf("(>= (sl_arr %s) (- %d))", term, x.objCtr))
+	case *types.Pointer:
+		x.assume(st, fmt.Sprintf("(or (not ((_ is pobj) %s)) (>= (pobj_id %s) (- %d)))", term, term, x.objCtr))
+	case *types.Struct:
+		for i := 0; i < u.NumFields(); i++ {
+			switch u.Field(i).Type().Underlying().(type) {
+			case *types.Slice, *types.Pointer, *types.Struct:
+				x.notFuture(st, u.Field(i).Type(), x.vc.fieldOf(t, i, term), depth+1)
+			}
+		}
+	}
 }
 
 // wf asserts well-formedness facts of a value. mode: "param" and "havoc" constrain a fresh
@@ -926,6 +950,9 @@ func (x *Exec) mergeStates(states []*State, tag string) *State {
 }
 
 func (x *Exec) ghostSort(name string) string {
+	if strings.HasPrefix(name, "held|") {
+		return "Bool"
+	}
 	if g, ok := x.db.Ghosts[name]; ok {
 		return x.vc.sortOf(x.resolveTypeExpr(g.Type, nil))
 	}
